@@ -139,10 +139,14 @@ var _ time.Time // lemmas below name package time
 // response stream (they end by calling it); ExportKeys fills the two keys or fails.
 //@ pred freshData(d) = (len(d.Cookie) == 0 && d.Algo == 0 && len(d.C2sKey) == 0 && len(d.S2cKey) == 0)
 
+// dialTLS succeeds only on a connection that negotiated the ntske/1 application protocol, and hands out fresh data
+// (server and default port only). The TLS dial itself is opaque (a connection or an error).
 //@ func dialTLS
-//@   trusted
-//@   allocates
-//@   ensures result2 == nil ==> result0 != nil && freshData(result1)
+//@   noframe
+//@   nonnil tls.DialWithDialer
+//@   requires config != nil
+//@   ensures fresh: result2 == nil ==> result0 != nil && freshData(result1) && result1.Port == 123
+//@   ensures alpn: result2 == nil ==> state.NegotiatedProtocol == "ntske/1"
 //@ func dialQUIC
 //@   trusted
 //@   allocates
